@@ -48,7 +48,7 @@ def checkPc (p : Program) (c : Cert) (rootRid : Nat) (pc : Nat) (ins : Instr) (I
     I.pend.isNone && decide (0 ≤ cnt) && regOK tgt I.frame && mapOK p idx cnt.toNat &&
     (match next with
      | some N => N.frame == I.frame && N.rid == I.rid &&
-                 (match N.pend with | some (cf, _) => cf == cnt.toNat | none => false)
+                 (match N.pend with | some (cf, j) => cf == cnt.toNat && decide (j < I.rid) | none => false)
      | none => false)
   | .arg t s =>
     (match I.pend with
